@@ -50,11 +50,27 @@ class Transport(object):
         return obj.cutoff
 
 
+_REAL_WL = []
+
+
 def _wlogs():
+    """one real WireLog(buffify=True) per process; its two in-memory buffers
+    are emptied between cases (reopen() costs a strftime per call)"""
     from ioflo.aio.wiring import WireLog
-    wl = WireLog(buffify=True)
-    wl.reopen()
+    if not _REAL_WL:
+        wl = WireLog(buffify=True)
+        wl.reopen()
+        _REAL_WL.append(wl)
+    wl = _REAL_WL[0]
+    for f in (wl.txLog, wl.rxLog):
+        f.seek(0)
+        f.truncate()
     return wl
+
+
+def _clock():
+    from ioflo.aid.timing import Stamper
+    return Stamper(stamp=0.0)
 
 
 class TClient(Transport):
@@ -63,9 +79,8 @@ class TClient(Transport):
 
     def make(self, wlog):
         from ioflo.aio.tcp import clienting
-        from ioflo.base import storing
         fake = FakeSocket(sockname=NEAR, peername=PEER, defaults={"recv": self.blocks[0]})
-        kw = dict(ha=PEER, wlog=wlog, store=storing.Store(stamp=0.0))
+        kw = dict(ha=PEER, wlog=wlog, store=_clock())
         if self.tls:
             obj = clienting.ClientTls(context=FakeContext(), **kw)
         else:
@@ -88,9 +103,8 @@ class TIncomer(Transport):
 
     def make(self, wlog):
         from ioflo.aio.tcp import serving
-        from ioflo.base import storing
         fake = FakeSocket(sockname=NEAR, peername=PEER, defaults={"recv": self.blocks[0]})
-        kw = dict(ha=NEAR, bs=8096, ca=PEER, cs=fake, wlog=wlog, store=storing.Store(stamp=0.0))
+        kw = dict(ha=NEAR, bs=8096, ca=PEER, cs=fake, wlog=wlog, store=_clock())
         if self.tls:
             obj = serving.IncomerTls(context=FakeContext(), **kw)
             if not obj.serviceHandshake():
@@ -343,16 +357,29 @@ def random_case(ctx, T, rng):
 def worker(ctx, job):
     T = TRANSPORTS[job["cls"]]
     M, L, D = job["M"], job["L"], job["D"]
+    Ms, Ls, Ds = job["Ms"], job["Ls"], job["Ds"]
     K, k = job["K"], job["k"]
     n = 0
     first = None
+    # the would-block alphabet of the complete enumeration: EAGAIN for plain
+    # sockets, WANT_WRITE for TLS; WANT_READ (same branch in the code, the
+    # other spelling) is enumerated together with WANT_WRITE two calls shallower
+    main_blocks = T.blocks[-1:]
     for ci, lens in enumerate(configs(M, L)):
         if ci % K != k:
             continue
-        for stagger in (False, True):
-            if stagger and len(lens) == 1:
-                continue
-            for script in enum_send_scripts(lens, D, T.blocks):
+        plans = [(False, D, main_blocks)]
+        if len(lens) > 1 and len(lens) <= Ms and max(lens) <= Ls:
+            plans.append((True, Ds, main_blocks))
+        if len(T.blocks) > 1:
+            plans.append((False, D - 2, T.blocks))
+        seen = set()
+        for stagger, depth, blocks in plans:
+            for script in enum_send_scripts(lens, depth, blocks):
+                key = (stagger, tuple(script))
+                if key in seen:
+                    continue
+                seen.add(key)
                 run_tx_case(ctx, T, lens, stagger, script)
                 n += 1
                 if first is None and len(script) >= 3 and any(i[0] == "partial" for i in script):
@@ -368,28 +395,32 @@ def worker(ctx, job):
     if k == 0:
         for shape in enum_recv_scripts(job["RC"], 3, job["RD"], T.blocks or [("block",)]):
             run_rx_case(ctx, T, shape)
-        rng = ctx.subrng("c24", T.name)
-        for i in range(job["R"]):
-            random_case(ctx, T, rng)
-            ctx.hit("random_cases_%s" % T.name)
+    rng = ctx.subrng("c24", T.name, k)
+    for i in range(job["R"]):
+        random_case(ctx, T, rng)
+        ctx.hit("random_cases_%s" % T.name)
     ctx.extra["enumerated_tx_cases"] = {T.name: n}
 
 
 def run(ctx):
     M, L, D = ctx.pick((2, 3, 5), (3, 4, 6))
-    K = ctx.pick(2, 12)
+    Ms, Ls, Ds = ctx.pick((2, 3, 5), (3, 3, 6))
+    K = ctx.pick(3, 12)
     jobs = []
     for name in TRANSPORTS:
         for k in range(K):
-            jobs.append({"cls": name, "M": M, "L": L, "D": D, "K": K, "k": k,
-                         "RC": ctx.pick(3, 4), "RD": ctx.pick(4, 6), "R": ctx.pick(40, 1500)})
+            jobs.append({"cls": name, "M": M, "L": L, "D": D, "Ms": Ms, "Ls": Ls, "Ds": Ds, "K": K, "k": k,
+                         "RC": ctx.pick(3, 4), "RD": ctx.pick(4, 6), "R": ctx.pick(15, 150)})
     ctx.shard(jobs, timeout=ctx.pick(120, 900))
-    ctx.extra["bounds"] = {"max_messages": M, "max_message_length": L, "max_send_calls": D}
+    ctx.extra["bounds"] = {"upfront": {"max_messages": M, "max_message_length": L, "max_send_calls": D},
+                           "staggered": {"max_messages": Ms, "max_message_length": Ls, "max_send_calls": Ds},
+                           "tls_both_want_kinds_max_send_calls": D - 2}
     ctx.extra["exhaustive_part"] = "all send-result sequences within bounds, per class and queueing mode"
     for name in TRANSPORTS:
         ctx.floor("requeue_%s" % name, ctx.pick(2000, 100000))
         ctx.floor("requeue_partial_%s" % name, ctx.pick(700, 30000))
         ctx.floor("rx_chunks_%s" % name, ctx.pick(200, 3000))
+        ctx.floor("random_cases_%s" % name, ctx.pick(15, 500))
         if name != "Driver":
             ctx.floor("cutoff_then_service_%s" % name, ctx.pick(20, 100))
     ctx.floor("distinct_nontrivial", ctx.pick(10000, 500000))
